@@ -18,6 +18,17 @@ CHECKS = {
     note=TB_REALS + "hand-written model tied by correspondence (tolerance 2^-36, discrete outputs equal); infinite box sides modelled as None; "
          "nuclear norm: no theorem (Eigen BDCSVD is an oracle), only the optimality condition is checked on outputs; the complex-l1 operator did not compile before fix 5a3d83895.",
     technique="Coq proof over R of the executable model + differential correspondence at binary64 + optimality-condition oracle"),
+ "C06": dict(
+    level="proof",
+    text="The status chain is TRANSLATED from check_all_stop_conditions (panoc-helpers.tpp and the PANOC-OCP copy) into Gallina on every run; "
+         "theorems about the generated functions: Converged iff eps<=tol, tolerance wins over every limit, MaxIter only with k=max_iter, NotFinite only non-finite, "
+         "NoProgress only above the limit, Interrupted only after a request, OCP copy identical, and at binary64 (FloatAxioms) a NaN/+inf residual is never Converged; "
+         "loop-skeleton theorem (all observation sequences): iterations<=max_iter; no-progress counter spec incl. max_no_progress=0; reported eps = documented formula for all ten criteria over R. "
+         "Kernels are tied by direct calls (exhaustive truth table, random criteria data) evaluated by the same Gallina code at binary64; whole-solver runs check statuses, counts and eps recomputed from the final iterate.",
+    design="4/C06",
+    note=TB_REALS + "stdlib FloatAxioms (leb_spec, eqb_spec, ltb_spec, abs_spec, Prim2SF...) for the binary64 theorem; translator translate/gen_stopchain.py (restricted grammar; out-of-grammar is reported); "
+         "criteria: hand model tied by correspondence; clocks are inputs; solver loops abstracted to the chain-evaluate/return/k++ skeleton (validated on runs).",
+    technique="Coq proofs over a model regenerated from the C++ by a translator + hand kernels with differential correspondence + run oracles"),
 }
 
 NOT_YET = {}
